@@ -200,7 +200,10 @@ func (i *Iterator) Next(ctx context.Context, span telem.TimeSpan) (ok bool) {
 		return
 	}
 
-	for i.internal.Next() &&
+	// A domain that extends beyond the end of the view still holds data for the next
+	// view, and no later domain can overlap this view: do not move past it.
+	for !i.internal.TimeRange().End.After(i.view.End) &&
+		i.internal.Next() &&
 		i.accumulate(ctx) &&
 		!i.satisfied() {
 	}
@@ -364,7 +367,10 @@ func (i *Iterator) Prev(ctx context.Context, span telem.TimeSpan) (ok bool) {
 		return
 	}
 
-	for i.internal.Prev() &&
+	// Mirrored: a domain that starts before the view still holds data for the previous
+	// view, and no earlier domain can overlap this view: do not move back past it.
+	for !i.internal.TimeRange().Start.Before(i.view.Start) &&
+		i.internal.Prev() &&
 		i.accumulate(ctx) &&
 		!i.satisfied() {
 	}
